@@ -179,6 +179,9 @@ def _run(pm: ProgramModel, ctx: Ctx, mb: ModelBuilder, cd: Codec) -> None:
               "constraint shapes that stress normal forms", ("constraint", "constraint-count"))
     # the AFM WORD token: a capital letter followed by letters and digits
     cd.large(mb, OPS, rename=lambda s_: (s_[0].upper() + s_[1:]).replace("_", ""))
+    cd.polarity(mb, OPS, "VOC", model_of=lambda trees: ctc_model(mb, [t for _, t in trees]))
+    cd.writer_reuse(mb, abstract=False)
+    cd.reader_reuse(mb, abstract=False)
     # PAIRS: every two-way combination of position, name shape inside the WORD token, attribute domain kind, role in a
     # constraint and operator on one feature
     from ..interact import Fragment, sweep
